@@ -165,6 +165,58 @@ fn c07_collection_time_times() {
     wit!(time == 86_399_999);
 }
 
+/// Out-of-range time of day (>= 24 h, every such u32): the property ties the radial's collection time
+/// to the header's own date-time accessor for EVERY decoded message, so the radial must report whatever
+/// `Header::date_time()` reports (chrono wraps the time of day and keeps the date), not a separately
+/// computed sum.
+#[kani::proof]
+#[kani::stub(alloc::fmt::format, crate::stubs::fmt_format)]
+fn c07_collection_time_beyond_24h() {
+    let time: u32 = kani::any();
+    kani::assume(time >= 86_400_000);
+    collection_time_beyond(time);
+    wit!(time == u32::MAX);
+    wit!(time == 86_400_000);
+}
+
+/// Quick-tier window of the same statement: the 65,536 milliseconds right after 24 h.
+#[kani::proof]
+#[kani::stub(alloc::fmt::format, crate::stubs::fmt_format)]
+fn c07_collection_time_beyond_24h_window() {
+    let x: u16 = kani::any();
+    let time = 86_400_000u32 + x as u32;
+    collection_time_beyond(time);
+    wit!(x == 0);
+    wit!(x == 65535);
+}
+
+fn collection_time_beyond(time: u32) {
+    let mut h = any_header();
+    h.azimuth_angle = 10.5;
+    h.elevation_angle = 0.5;
+    h.azimuth_resolution_spacing = 1;
+    h.radial_status = 1;
+    h.date = 19_000;
+    h.time = time;
+    let want = match h.date_time() {
+        Some(t) => t.timestamp_millis(),
+        None => panic!("C07: header date_time() is none for an in-range date"),
+    };
+    assert!(want == (19_000i64 - 1) * 86_400_000 + (time % 86_400_000) as i64, "C07: header date_time() for a time of day beyond 24 h");
+    let m = msg(h, [None, None, None, None, None, None, None]);
+    match m.radial() {
+        Ok(r) => {
+            assert!(r.collection_timestamp() == want, "C07: radial() collection time differs from the header's date-time");
+            core::mem::forget(r);
+        }
+        Err(e) => {
+            core::mem::forget(e);
+            panic!("C07: radial() failed although the header has a date-time")
+        }
+    }
+    core::mem::forget(m);
+}
+
 /// Moment routing for a CONCRETE presence pattern (a symbolic subset makes seven heap objects
 /// conditional at once: 16 GB): each present moment carries its own raw byte, scale and offset so
 /// that cross-wiring is visible; the radial reports exactly those present, each with its own value;
